@@ -9,6 +9,7 @@ import (
 	"math/rand"
 	"os"
 	"path/filepath"
+	"reflect"
 	"sort"
 	"strings"
 
@@ -35,6 +36,7 @@ type vop struct {
 	P     int    `json:"p,omitempty"`
 	Agg   string `json:"agg,omitempty"`
 	Bad   string `json:"bad,omitempty"`
+	ThrOwn int   `json:"thrown,omitempty"` // threshold = the score the index itself reported for its ThrOwn-th hit
 }
 
 type vecEnv struct {
@@ -587,7 +589,14 @@ func (r *vecRun) exec(op vop) error {
 		if ok {
 			r.trained = true
 		}
-		r.t.ev("train", E{"ok": ok, "panic": panicked, "n": n})
+		// the caller's training vectors after the call (a caller may go on to add the very same vectors)
+		inputSame := true
+		for i := range tr {
+			if !reflect.DeepEqual(tr[i].Vector(), e.train[i].Vector()) {
+				inputSame = false
+			}
+		}
+		r.t.ev("train", E{"ok": ok, "panic": panicked, "n": n, "inputSame": inputSame})
 	case "add":
 		var vec []float32
 		bad := op.Bad
@@ -685,6 +694,23 @@ func (r *vecRun) exec(op vop) error {
 				}
 			}
 		}
+		thrid := 0
+		if op.ThrOwn > 0 && len(op.Q) == 1 && len(op.Nodes) == 0 {
+			// the threshold is a score the index reported itself: that hit lies within the threshold, whatever the rounding
+			s0 := r.idx.NewSearch().WithQuery(cp(e.qs[op.Q[0]-1])).WithK(-1)
+			if e.clustered() {
+				s0 = s0.WithNProbes(-1)
+			}
+			if rs0, err0 := s0.Execute(); err0 == nil && len(rs0) >= op.ThrOwn && rs0[op.ThrOwn-1].GetScore() > 0 {
+				t := rs0[op.ThrOwn-1].GetScore()
+				s = s.WithThreshold(t)
+				thr = int64(math.Round(float64(t) * e.scale))
+				if thr == 0 {
+					thr = 1
+				}
+				thrid = int(rs0[op.ThrOwn-1].GetId())
+			}
+		}
 		if len(op.Filt) > 0 {
 			f := []uint32{}
 			for _, x := range op.Filt {
@@ -722,7 +748,7 @@ func (r *vecRun) exec(op vop) error {
 			p = 0
 		}
 		r.t.ev("search", E{"qs": nzi(op.Q), "nodes": nzi(op.Nodes), "k": op.K, "thr": thr, "filt": nzi(op.Filt), "p": p, "agg": agg,
-			"ok": err == nil, "res": res})
+			"ok": err == nil, "res": res, "thrid": thrid})
 	case "obs":
 		return r.battery()
 	default:
@@ -744,7 +770,7 @@ func (r *vecRun) battery() error {
 	for q := 1; q <= 2; q++ {
 		for _, k := range []int{-1, 1, 2} {
 			for _, p := range ps {
-				for _, filt := range [][]int{nil, {1, 9}} {
+				for _, filt := range [][]int{nil, {1, 9}, {1, 9, 3}, {1, 7, 7, 4}} { // restrictions are sets: order and repetition do not matter
 					if err := r.exec(vop{A: "search", Q: []int{q}, K: k, P: p, Filt: filt}); err != nil {
 						return err
 					}
@@ -754,6 +780,12 @@ func (r *vecRun) battery() error {
 		// thresholds that coincide with stored distances
 		for _, tv := range []int{1, 2, 3} {
 			if err := r.exec(vop{A: "search", Q: []int{q}, K: -1, P: -1, ThrV: tv}); err != nil {
+				return err
+			}
+		}
+		// thresholds that are scores the index reported itself
+		for _, j := range []int{1, 2} {
+			if err := r.exec(vop{A: "search", Q: []int{q}, K: -1, P: -1, ThrOwn: j}); err != nil {
 				return err
 			}
 		}
@@ -848,7 +880,12 @@ func (r *vecRun) randomHistory(steps int) error {
 				nextFresh++
 			}
 			op := vop{A: "add", ID: id, V: 1 + rng.Intn(e.NV)}
-			if rng.Intn(15) == 0 {
+			if _, isLive := r.live[id]; r.resident[id] && !isLive && rng.Intn(3) == 0 { // a malformed re-add of a removed id
+				op.Bad = "dim"
+				if e.metric == comet.Cosine {
+					op.Bad = "zero"
+				}
+			} else if rng.Intn(15) == 0 {
 				op.Bad = "dim"
 			} else if e.metric == comet.Cosine && rng.Intn(15) == 0 {
 				op.Bad = "zero"
@@ -914,9 +951,12 @@ func (r *vecRun) randomHistory(steps int) error {
 			}
 			if !multi && len(op.Q) == 1 && rng.Intn(3) == 0 {
 				op.ThrV = 1 + rng.Intn(e.NV)
+				if rng.Intn(3) == 0 {
+					op.ThrV, op.ThrOwn = 0, 1+rng.Intn(4)
+				}
 			}
 			if rng.Intn(3) == 0 {
-				op.Filt = []int{1, 2, 3, 99}
+				op.Filt = [][]int{{1, 2, 3, 99}, {3, 99, 1, 2}, {2, 9, 9, 5}, {5, 1, 3}}[rng.Intn(4)]
 				if rng.Intn(2) == 0 {
 					op.Filt = []int{1 + rng.Intn(9), 1 + rng.Intn(12), 10, 11}
 				}
@@ -964,7 +1004,7 @@ func drvVec(args []string) error {
 	dupTrain := cf.fs.Bool("duptrain", false, "repeat training vectors where k-means takes its initial centroids: clusters that stay empty")
 	cf.fs.Parse(args)
 	e := &vecEnv{kind: *kind, metric: comet.DistanceKind(*metric), dim: *dim, NV: 14, NQ: 5, lattice: *lattice,
-		nlist: *nlist, M: *pqM, nbits: *nbits, hM: *pqM, efC: 64, efS: 64, rng: rand.New(rand.NewSource(*cf.seed))}
+		nlist: *nlist, M: *pqM, nbits: *nbits, hM: *pqM, efC: 64, efS: 48, rng: rand.New(rand.NewSource(*cf.seed))}
 	if e.kind == "hnsw" && e.hM < 2 {
 		e.hM = 2
 	}
@@ -1042,6 +1082,19 @@ func drvVec(args []string) error {
 				}
 				if op.A == "search" && e.clustered() && op.P == 0 {
 					op.P = -1
+				}
+				if _, isLive := r.live[op.ID]; op.A == "add" && r.resident[op.ID] && !isLive {
+					// a malformed re-add of a removed id first: it must fail and leave the id removed
+					bad := "dim"
+					if e.metric == comet.Cosine {
+						bad = "zero"
+					}
+					if err := r.exec(vop{A: "add", ID: op.ID, V: op.V, Bad: bad}); err != nil {
+						return err
+					}
+					if err := r.exec(vop{A: "search", Q: []int{1}, K: -1, P: -1}); err != nil {
+						return err
+					}
 				}
 				if err := r.exec(op); err != nil {
 					return err
